@@ -22,7 +22,7 @@ EXPLANATION = (
     'ValueError. C01.c: symbols/_M/_K are written only by Modulator.__init__ and setConstellation, which derives M '
     'and K from the very table it stores (DSF: no public entry leaves them inconsistent). Not decided: '
     'demodulate(modulate(i)) == i, nearest-symbol decision, unit mean energy, distinct points (numeric).'
-    ' General rules also applied here (see DESIGN 10.5): validate-before-commit (no `raise` reachable after the object was already changed in a public mutator); input immutability (no in-place modification of an array argument, alias- and view-aware).')
+    ' General rules also applied here (see DESIGN 10.5): validate-before-commit (no `raise` reachable after the object was already changed in a public mutator); input immutability (no in-place modification of an array argument, alias- and view-aware). C01.i: no integer range / index arithmetic in a narrow (8/16-bit) dtype.')
 
 
 def _raising_tests(fn: FuncInfo, names: Set[str]) -> Set[int]:
@@ -287,6 +287,10 @@ def _check_detector_table_coupling(ctx: Ctx) -> None:
 
 
 MUTANTS = [
+    Mutant('gray-index-range-in-uint8', FUND, 'QAM._calculateGrayMappingIndexQAM',
+           [('replace', 'np.arange(0, L, dtype=int)', 'np.arange(0, L, dtype=np.uint8)')], r'C01\.i:QAM\._calculateGrayMappingIndexQAM'),
+    Mutant('benign-gray-index-range-in-int64', FUND, 'QAM._calculateGrayMappingIndexQAM',
+           [('replace', 'np.arange(0, L, dtype=int)', 'np.arange(0, L, dtype=np.int64)')], None, benign=True),
     Mutant('delete-qam-guard', FUND, 'QAM.__init__', [('regex', r'    if power % 2 != 0 or 2 \*\* power != M:\n        raise ValueError\([^\n]*\)\n', '')],
            r'C01\.a:QAM\.__init__'),
     Mutant('psk-guard-after-install', FUND, 'PSK.__init__',
